@@ -8,6 +8,7 @@ components may become unsupported in a future version (see #26 and #28)
 from __future__ import annotations
 
 import copy
+import math
 import re
 from typing import Any, Callable, Dict, Iterable, Mapping, Optional, cast
 
@@ -283,6 +284,9 @@ def _serialize_attr(x: object) -> str:
         )
     if isinstance(x, bool):
         return str(x).lower()
+    if isinstance(x, float) and not math.isfinite(x):
+        # JavaScript spells these Infinity, -Infinity and NaN (Python: inf, -inf, nan).
+        return "NaN" if math.isnan(x) else ("Infinity" if x > 0 else "-Infinity")
     if isinstance(x, (jsx, int, float)):
         return str(x)
     return '"' + str(x).replace('"', '\\"') + '"'
